@@ -75,6 +75,11 @@ PROP = [  # (subject fragment, property, also)
  ("DELETE fails when its WHERE clause is denied access", "C26", ""),
  ("bulk transfer checks the SELECT privilege on the source table", "C26", ""),
  ("text-based query signature keeps string literals as written", "C25", ""),
+ ("frontend message decoding works on exactly the declared frame", "C27", ""),
+ ("Python parameter binding ignores '?' inside string literals", "C30", ""),
+ ("Python statement cache is keyed by the statement with its parameters bound", "C30", ""),
+ ("Python bool parameters are bound as BOOLEAN", "C30", ""),
+ ("Python float parameters keep the sign of negative zero", "C30", ""),
 ]
 def main():
     root = sys.argv[1] if len(sys.argv) > 1 else "/verif"
